@@ -50,6 +50,7 @@ CONSTANTS Objs,        \* geometry objects offered (strings: "box" "box2" "tet" 
           Ops,         \* enabled operation kinds
           ParentMode,  \* "none" | "inst" | "all": which parent_node_name values are offered
           MaxDepth,
+          Emitting,    \* FALSE: the history keeps only its length (model checking)
           AsBuiltNodeOverwrite, AsBuiltDupNeedsPath,
           MutNoUniqueGeom,     \* add_geometry stores under the requested name without unique_name   -> NoOverwrite
           MutNodeNotUnique,    \* default node name = geometry name even when that node exists       -> NoOverwrite
@@ -57,7 +58,8 @@ CONSTANTS Objs,        \* geometry objects offered (strings: "box" "box2" "tet" 
           MutDeleteKeepsRefs,  \* delete_geometry forgets graph.remove_geometries                    -> DeleteClean
           MutForgetDirty,      \* remove_geometries does not reset EnforcedForest._hash              -> ListingFresh
           MutSceneKeyNoGraph,  \* Scene.__hash__ ignores the graph                                   -> DupCorrect
-          MutSubsceneEdgeTo    \* subscene keeps edges ENTERING a successor instead of leaving one   -> SubsceneCorrect
+          MutSubsceneEdgeTo,   \* subscene keeps edges ENTERING a successor instead of leaving one   -> SubsceneCorrect
+          MutSceneNoRemap      \* append_scenes does not rename node names that are taken            -> NoOverwriteScene
 
 VARIABLES st,    \* the registry: [geo, nodes, par, off, ng, rnd]
           hm,    \* EnforcedForest._hash : [d |-> dirty?, c |-> content the memo was computed from]
@@ -66,7 +68,7 @@ VARIABLES st,    \* the registry: [geo, nodes, par, off, ng, rnd]
           last,  \* what the last operation returned / read (+ the state before it)
           hist   \* rendered history (emission only)
 vars == <<st, hm, gc, sc, last, hist>>
-View == <<st, hm, gc, sc, last, Len(hist)>>
+View == <<st, hm, gc, sc, Len(hist)>>
 
 \* ------------------------------------------------------------------ names
 NoName   == [b |-> "", k |-> -1, r |-> 0]           \* stands for None
@@ -173,7 +175,7 @@ MergeGeo(acc, m, tg, i) ==
          IN MergeGeo(Append(acc, [n |-> nm, o |-> tg[i].o]), Put(m, tg[i].n, nm), tg, i + 1)
 AddScene(s, t) ==
     LET consumed == DOMAIN s.par \cup {s.par[v] : v \in DOMAIN s.par}     \* nodes on self's edge list
-        Remap(v) == IF v # World /\ v \in consumed THEN [v EXCEPT !.r = s.rnd + 1] ELSE v
+        Remap(v) == IF ~MutSceneNoRemap /\ v # World /\ v \in consumed THEN [v EXCEPT !.r = s.rnd + 1] ELSE v
         mg == MergeGeo(s.geo, EmptyFn, t.geo, 1)
         TE == {[v |-> Remap(w), u |-> Remap(t.par[w]), x |-> t.off[w],
                 g |-> IF w \in DOMAIN t.ng THEN (IF t.ng[w] \in DOMAIN mg.m THEN mg.m[t.ng[w]] ELSE t.ng[w]) ELSE NoName]
@@ -239,7 +241,7 @@ GCVerified(h) == IF gc.valid /\ gc.id = h THEN gc ELSE [NoGC EXCEPT !.valid = TR
 SceneKey(h) == <<IF MutSceneKeyNoGraph THEN <<>> ELSE h, [i \in DOMAIN st.geo |-> st.geo[i].o]>>
 SCVerified(k) == IF sc.valid /\ sc.id = k THEN sc ELSE [NoSC EXCEPT !.valid = TRUE, !.id = k]
 
-Log(rec) == hist' = Append(hist, rec)
+Log(rec) == hist' = Append(hist, IF Emitting THEN rec ELSE 0)
 Rs(S) == {Render(v) : v \in S}
 StJ(s) == [geo |-> [i \in DOMAIN s.geo |-> [n |-> Render(s.geo[i].n), o |-> s.geo[i].o]],
            nodes |-> Rs(s.nodes),
@@ -269,7 +271,7 @@ Add(o, gn, nn, p) ==
         i == AddOne(st, o, gn, nn, p, Xnow, FALSE)
     IN /\ "add" \in Ops /\ a.ok /\ i.ok
        /\ Mutated(a.s)
-       /\ last' = [op |-> "add", pre |-> st, objs |-> <<o>>, rets |-> <<a.ret>>]
+       /\ last' = [op |-> "add", objs |-> <<o>>, rets |-> <<a.ret>>]
        /\ Log([op |-> "add", o |-> o, gn |-> Render(gn), nn |-> Render(nn), p |-> Render(p), x |-> Xnow,
                ret |-> Render(a.ret), st |-> StJ(a.s), dev |-> a.dev,
                alt |-> IF a.dev THEN [ret |-> Render(i.ret), st |-> StJ(i.s)] ELSE [ret |-> ""]])
@@ -279,7 +281,7 @@ AddList(os, gn, nn, p) ==
         i == AddSeq(st, os, gn, nn, p, Xnow, FALSE, 1)
     IN /\ "addlist" \in Ops /\ a.ok /\ i.ok
        /\ Mutated(a.s)
-       /\ last' = [op |-> "add", pre |-> st, objs |-> os, rets |-> a.ret]
+       /\ last' = [op |-> "add", objs |-> os, rets |-> a.ret]
        /\ Log([op |-> "addlist", os |-> os, gn |-> Render(gn), nn |-> Render(nn), p |-> Render(p), x |-> Xnow,
                ret |-> [k \in DOMAIN a.ret |-> Render(a.ret[k])], st |-> StJ(a.s), dev |-> a.dev,
                alt |-> IF a.dev THEN [ret |-> [k \in DOMAIN i.ret |-> Render(i.ret[k])], st |-> StJ(i.s)]
@@ -289,7 +291,7 @@ AddDict(d) ==
     LET a == AddMap(st, d, 1)
     IN /\ "adddict" \in Ops /\ a.ok
        /\ Mutated(a.s)
-       /\ last' = [op |-> "add", pre |-> st, objs |-> [k \in DOMAIN d |-> d[k].o],
+       /\ last' = [op |-> "add", objs |-> [k \in DOMAIN d |-> d[k].o],
                    rets |-> [k \in DOMAIN a.ret |-> a.ret[k].v]]
        /\ Log([op |-> "adddict", d |-> d, ret |-> [k \in DOMAIN a.ret |-> [k |-> a.ret[k].k, v |-> Render(a.ret[k].v)]],
                st |-> StJ(a.s)])
@@ -298,7 +300,7 @@ AddSceneAct(k) ==
     LET s2 == AddScene(st, Other(k))
     IN /\ "addscene" \in Ops
        /\ Mutated(s2)
-       /\ last' = [op |-> "addscene", pre |-> st]
+       /\ last' = [op |-> "addscene"]
        /\ Log([op |-> "addscene", k |-> k, st |-> StJ(s2)])
 
 \* delete_geometry -> remove_geometries pops the memoised nodes_geometry and resets the hash memo
@@ -309,7 +311,7 @@ DeleteAct(S) ==
        /\ hm' = IF MutForgetDirty \/ MutDeleteKeepsRefs THEN hm ELSE Dirty
        /\ gc' = IF MutDeleteKeepsRefs THEN gc ELSE [gc EXCEPT !.hasN = FALSE, !.ngl = {}]
        /\ UNCHANGED sc
-       /\ last' = [op |-> "delete", pre |-> st, names |-> S]
+       /\ last' = [op |-> "delete", names |-> S]
        /\ Log([op |-> "delete", names |-> Rs(S), st |-> StJ(s2)])
 
 \* scene.graph.update(v, frame_from = p, matrix = T(x), geometry = g): one more instance of g
@@ -318,14 +320,14 @@ Instance(v, g, p) ==
         s2 == GUpdate(st, u, v, Xnow, g)
     IN /\ "instance" \in Ops /\ UpdOK(st, u, v)
        /\ Mutated(s2)
-       /\ last' = [op |-> "instance", pre |-> st]
+       /\ last' = [op |-> "instance"]
        /\ Log([op |-> "instance", v |-> Render(v), g |-> Render(g), p |-> Render(p), x |-> Xnow, st |-> StJ(s2)])
 
 RemoveNodeAct(v) ==
     LET s2 == RemoveNode(st, v)
     IN /\ "rmnode" \in Ops
        /\ Mutated(s2)
-       /\ last' = [op |-> "rmnode", pre |-> st]
+       /\ last' = [op |-> "rmnode"]
        /\ Log([op |-> "rmnode", v |-> Render(v), st |-> StJ(s2)])
 
 \* graph.nodes_geometry and graph.geometry_nodes (both cache_decorator properties of SceneGraph)
@@ -404,47 +406,59 @@ RefIntegrity ==
     /\ DOMAIN st.off = DOMAIN st.par
     /\ Acyclic(st)
     /\ \A i, j \in DOMAIN st.geo : i # j => st.geo[i].n # st.geo[j].n
-\* (1) every returned name is a node whose geometry attribute names the entry holding what was added
-AddReturns ==
-    last.op = "add" =>
-        \A k \in DOMAIN last.rets :
-            /\ last.rets[k] \in st.nodes /\ last.rets[k] \in DOMAIN st.ng
-            /\ st.ng[last.rets[k]] \in GeoNames(st)
-            /\ GeoObj(st, st.ng[last.rets[k]]) = last.objs[k]
-\* (2) adding never overwrites or re-aims an existing entry
-NoOverwrite ==
-    last.op = "add" =>
-        /\ Len(st.geo) = Len(last.pre.geo) + Len(last.objs)
-        /\ \A i \in DOMAIN last.pre.geo : st.geo[i] = last.pre.geo[i]
-        /\ \A v \in DOMAIN last.pre.ng : v \in DOMAIN st.ng /\ st.ng[v] = last.pre.ng[v]
-        /\ \A v \in DOMAIN last.pre.par : v \in DOMAIN st.par /\ st.par[v] = last.pre.par[v] /\ st.off[v] = last.pre.off[v]
-\* ... a scene too, for everything that hangs on an edge (see the accommodation in the header)
-NoOverwriteScene ==
-    last.op = "addscene" =>
-        /\ \A i \in DOMAIN last.pre.geo : st.geo[i] = last.pre.geo[i]
-        /\ \A v \in DOMAIN last.pre.par : v \in DOMAIN st.par /\ st.par[v] = last.pre.par[v] /\ st.off[v] = last.pre.off[v]
-        /\ \A v \in DOMAIN last.pre.ng \cap DOMAIN last.pre.par : v \in DOMAIN st.ng /\ st.ng[v] = last.pre.ng[v]
-\* (3) delete_geometry removes the entry and every reference, and nothing else
-DeleteClean ==
-    last.op = "delete" =>
-        /\ GeoNames(st) = GeoNames(last.pre) \ last.names
-        /\ st.geo = SelectSeq(last.pre.geo, LAMBDA e : e.n \notin last.names)
-        /\ \A v \in DOMAIN st.ng : st.ng[v] \notin last.names
-        /\ \A v \in DOMAIN last.pre.ng : last.pre.ng[v] \notin last.names => (v \in DOMAIN st.ng /\ st.ng[v] = last.pre.ng[v])
-        /\ st.nodes = last.pre.nodes /\ st.par = last.pre.par /\ st.off = last.pre.off
-\* (3)/(4) the memoised listings are the current node attributes and their inverse image
-ListingFresh ==
-    last.op = "readgraph" => last.ngl = RefNG(st) /\ last.gnl = RefGN(st)
+\* (4) geometry_nodes is the inverse image of the node -> geometry attribute (sanity of the reference)
 InverseImage ==
     /\ \A g \in DOMAIN RefGN(st) : RefGN(st)[g] # {} /\ \A v \in RefGN(st)[g] : st.ng[v] = g
     /\ \A v \in DOMAIN st.ng : v \in RefGN(st)[st.ng[v]]
-\* (5) duplicate_nodes is the grouping of the instance nodes by content hash, for every history
-DupCorrect ==
-    last.op = "readscene" => ~last.raise /\ last.dup = RefDup(st)
+\* (5) what subscene builds from the edge list is "the nodes below, placed relative to it"
 SubsceneCorrect == \A v \in st.nodes : ImplSub(st, v) = RefSub(st, v)
+
+\* The clauses about one operation are action properties: TLC evaluates them on every transition
+\* (st = before, st' = after, last' = what the operation returned).
+\* (1) every returned name is a node whose geometry attribute names the entry holding what was added
+AddReturnsA ==
+    last'.op = "add" =>
+        \A k \in DOMAIN last'.rets :
+            /\ last'.rets[k] \in st'.nodes /\ last'.rets[k] \in DOMAIN st'.ng
+            /\ st'.ng[last'.rets[k]] \in GeoNames(st')
+            /\ GeoObj(st', st'.ng[last'.rets[k]]) = last'.objs[k]
+\* (2) adding never overwrites or re-aims an existing entry
+NoOverwriteA ==
+    last'.op = "add" =>
+        /\ Len(st'.geo) = Len(st.geo) + Len(last'.objs)
+        /\ \A i \in DOMAIN st.geo : st'.geo[i] = st.geo[i]
+        /\ \A v \in DOMAIN st.ng : v \in DOMAIN st'.ng /\ st'.ng[v] = st.ng[v]
+        /\ \A v \in DOMAIN st.par : v \in DOMAIN st'.par /\ st'.par[v] = st.par[v] /\ st'.off[v] = st.off[v]
+\* ... a scene too, for everything that hangs on an edge (see the accommodation in the header)
+NoOverwriteSceneA ==
+    last'.op = "addscene" =>
+        /\ \A i \in DOMAIN st.geo : st'.geo[i] = st.geo[i]
+        /\ \A v \in DOMAIN st.par : v \in DOMAIN st'.par /\ st'.par[v] = st.par[v] /\ st'.off[v] = st.off[v]
+        /\ \A v \in DOMAIN st.ng \cap DOMAIN st.par : v \in DOMAIN st'.ng /\ st'.ng[v] = st.ng[v]
+\* (3) delete_geometry removes the entry and every reference, and nothing else
+DeleteCleanA ==
+    last'.op = "delete" =>
+        /\ GeoNames(st') = GeoNames(st) \ last'.names
+        /\ st'.geo = SelectSeq(st.geo, LAMBDA e : e.n \notin last'.names)
+        /\ \A v \in DOMAIN st'.ng : st'.ng[v] \notin last'.names
+        /\ \A v \in DOMAIN st.ng : st.ng[v] \notin last'.names => (v \in DOMAIN st'.ng /\ st'.ng[v] = st.ng[v])
+        /\ st'.nodes = st.nodes /\ st'.par = st.par /\ st'.off = st.off
+\* (3)/(4) the memoised listings are the current node attributes and their inverse image
+ListingFreshA ==
+    last'.op = "readgraph" => last'.ngl = RefNG(st') /\ last'.gnl = RefGN(st')
+\* (5) duplicate_nodes is the grouping of the instance nodes by content hash, for every history
+DupCorrectA ==
+    last'.op = "readscene" => ~last'.raise /\ last'.dup = RefDup(st')
 \* (6) bounds is None exactly when nothing is instanced (where every instance can be placed)
-BoundsAgree ==
-    (last.op = "readscene" /\ ~last.raise /\ ~Detached(st)) => last.bnone = (RefNG(st) = {})
+BoundsAgreeA ==
+    (last'.op = "readscene" /\ ~last'.raise /\ ~Detached(st')) => last'.bnone = (RefNG(st') = {})
+AddReturns == [][AddReturnsA]_vars
+NoOverwrite == [][NoOverwriteA]_vars
+NoOverwriteScene == [][NoOverwriteSceneA]_vars
+DeleteClean == [][DeleteCleanA]_vars
+ListingFresh == [][ListingFreshA]_vars
+DupCorrect == [][DupCorrectA]_vars
+BoundsAgree == [][BoundsAgreeA]_vars
 
 \* --------------------------------------------------------------- emission
 FinJ == [ngl |-> Rs(RefNG(st)), gnl |-> GNJ(RefGN(st)), dup |-> DupJ(RefDup(st)),
@@ -466,6 +480,7 @@ EmitFacts == (Len(hist) = 0) => PrintT(ToJson([o \in {"box", "box2", "tet", "pat
                               [meta |-> Meta(o), file |-> File(o), cls |-> HashClass(o)]]))
 
 \* ------------------------------------------------ constants for the configs
+Objs1 == {"box"}
 Objs2 == {"box", "tet"}
 Objs3 == {"box", "box2", "cloud"}
 Objs5 == {"box", "box2", "tet", "path", "cloud"}
